@@ -196,6 +196,20 @@ def params_r(group, inputs):
     return runexe(exe, [])
 
 
+def io_r(group, inputs, mode=None):
+    """C17: whole real library, real keys for small parameter sets, byte-level oracle on the exports (ASan on: an over-read in a writer is a finding)"""
+    cpp, cfiles = full_library_sources()
+    out = os.path.join(core.BUILD, 'native')
+    os.makedirs(out, exist_ok=True)
+    objs = []
+    for cf in cfiles:
+        o = os.path.join(out, os.path.basename(cf) + '.o')
+        subprocess.run(['gcc', '-O2', '-c', '-I' + INC, '-o', o, cf], capture_output=True, text=True)
+        objs.append(o)
+    exe = build('io_replay', cpp, extra=['-O1', '-fsanitize=address', '-I' + os.path.join(LIB, 'fft_processors', 'nayuki')] + objs + ['-lpthread'])
+    return runexe(exe, [mode] if mode else (['C05'] if getattr(group, 'name', '').startswith('C05') else []))
+
+
 def blind_r(group, inputs, fft):
     src = 'lwe-bootstrapping-functions-fft.cpp' if fft else 'lwe-bootstrapping-functions.cpp'
     extra = ['-DREPLAY_SRC="%s"' % os.path.join(LIB, src)] + (['-DREPLAY_FFT'] if fft else [])
@@ -216,7 +230,7 @@ def pairing_r(group, inputs):
 
 
 ROUTINES = {'numeric': numeric, 'woks': woks, 'lwe': lwe_r, 'poly': lwe_r, 'extract': lwe_r, 'decomp': decomp_r, 'tlwe': lwe_r,
-            'mult': mult_r, 'keyswitch': keyswitch_r, 'pairing': pairing_r, 'gate': gates_r, 'blind': blind_r, 'params': params_r}
+            'mult': mult_r, 'keyswitch': keyswitch_r, 'pairing': pairing_r, 'gate': gates_r, 'blind': blind_r, 'params': params_r, 'io': io_r, 'iotext': lambda g, i: io_r(g, i, 'C05text')}
 
 
 def run(name, group, inputs):
